@@ -54,6 +54,8 @@ class SecNode:
         self.errors = []
         self.traceback_counter = 0
         self.name = name
+        # modules with initialization in progress (for detecting cyclic dependencies)
+        self.initializing = []
 
     def add_secnode_property(self, prop, value):
         """Add SECNode property. If starting with an underscore, it is exported
@@ -75,9 +77,14 @@ class SecNode:
             return None
         if modobj._isinitialized:
             return modobj
+        if modobj in self.initializing:
+            # the module is needed (e.g. as an attached module) for its own initialization
+            raise ConfigError(f'cyclic dependency: module {modobj.name!r} '
+                              f'is needed for its own initialization')
 
         # also call earlyInit on the modules
         self.log.debug('initializing module %r', modulename)
+        self.initializing.append(modobj)
         try:
             modobj.earlyInit()
             if not modobj.earlyInitDone:
@@ -92,6 +99,7 @@ class SecNode:
                 self.log.exception(traceback.format_exc())
             self.traceback_counter += 1
             self.errors.append(f'error initializing {modulename}: {e!r}')
+        self.initializing.remove(modobj)
         modobj._isinitialized = True
         self.log.debug('initialized module %r', modulename)
         return modobj
